@@ -186,6 +186,7 @@ func c17OpsKS(ks, other univ.KeySet, thorough bool) []c17Op {
 			copy(x[len(x)-icv:], ref.HMAC(ks.Suite.Integ.Digest, ska, x[:len(x)-icv])[:icv])
 			return x
 		}(), false, true),
+		unprotect("unprotect(genuine I->R, empty payload list)", mk(ks, 2, true, 63), false, false),
 		unprotect("unprotect(tampered header length)", func() []byte { x := append([]byte(nil), gI...); x[27] ^= 0x08; return x }(), false, true),
 		unprotect("unprotect(tampered SK header flags)", flip(gI, 29), false, false),
 		unprotect("unprotect(genuine I->R, pad length 255)", mkPad(0, true, 255, 60), false, false), unprotect("unprotect(genuine R->I, pad length 40..55)", mkPad(1, false, 55, 61), true, true),
